@@ -180,6 +180,8 @@ impl RefClient {
                 self.payload = resp.plain.clone();
             }
             ClientState::S2022 { resp, .. } => {
+                // a response is judged against the clock of the moment it is read
+                resp.now = octo_squirrel::verif::clock::unix_now();
                 resp.feed(data)?;
                 if let Some(r) = &resp.resp {
                     self.payload = r.payload.clone();
@@ -297,6 +299,7 @@ impl RefServer {
                 }
             }
             ServerState::S2022 { req, .. } => {
+                req.now = self.now;
                 req.feed(data)?;
                 if let Some(r) = &req.req {
                     self.addr = r.addr.clone();
